@@ -80,14 +80,15 @@ func parseRaces(log string) []raceReport {
 
 // raceSummary is merged into the evidence of C09/C12/C13.
 type raceSummary struct {
-	Processes  int            `json:"processes"`
-	Cases      int            `json:"workload_cases"`
-	Sims       int            `json:"free_running_executions"`
-	Gomaxprocs []int          `json:"gomaxprocs"`
-	Reports    int            `json:"race_reports"`
-	Distinct   map[string]int `json:"distinct_races"`
-	Crashes    int            `json:"crashed_processes"`
-	Note       string         `json:"note"`
+	Processes      int            `json:"processes"`
+	Cases          int            `json:"workload_cases"`
+	Sims           int            `json:"free_running_executions"`
+	Gomaxprocs     []int          `json:"gomaxprocs"`
+	Reports        int            `json:"race_reports"`
+	Distinct       map[string]int `json:"distinct_races"`
+	Crashes        int            `json:"crashed_processes"`
+	OracleFailures int            `json:"oracle_failures_in_free_running_executions"`
+	Note           string         `json:"note"`
 }
 
 // aggregateRaces reads the race-phase directory: worker stats (r*.json) and logs (racelog*.txt).
@@ -105,6 +106,17 @@ func aggregateRaces(prop, dir, replayDir string, known Known) (sum raceSummary, 
 		if json.Unmarshal(b, &s) == nil {
 			sum.Cases += s.Evaluations
 			sum.Sims += s.Sims
+			// oracle failures of free-running executions are failures of real executions
+			for _, v := range s.Violations {
+				v.Detail = "[free-running, un-instrumented library] " + v.Detail
+				violations = append(violations, v)
+				sum.OracleFailures++
+			}
+			for k, v := range s.KnownHits {
+				if _, ok := knownHits[k]; !ok {
+					knownHits[k] = v
+				}
+			}
 		}
 	}
 	gm := map[int]bool{}
